@@ -720,6 +720,19 @@ func recordedNameDecidesDeletion(r *an.Run, rule string) {
 			var bad ssa.Instruction
 			seen := map[ssa.Value]bool{}
 			var visit func(v ssa.Value, h *ssa.Function, depth int)
+			// a parameter of a helper entered on the way stands for the argument at the call that was entered
+			type actual struct {
+				v ssa.Value
+				h *ssa.Function
+			}
+			bound := map[*ssa.Parameter]actual{}
+			bind := func(call *ssa.Call, k, h *ssa.Function) {
+				for i, prm := range k.Params {
+					if i < len(call.Call.Args) {
+						bound[prm] = actual{call.Call.Args[i], h}
+					}
+				}
+			}
 			// fieldOfCall: field `field` of the struct the module function called returns — what that function
 			// stores into the field of the local it returns
 			fieldOfCall := func(call *ssa.Call, field int, depth int) {
@@ -783,6 +796,10 @@ func recordedNameDecidesDeletion(r *an.Run, rule string) {
 					return false
 				}
 				switch x := v.(type) {
+				case *ssa.Parameter:
+					if a, ok := bound[x]; ok {
+						visit(a.v, a.h, depth)
+					}
 				case *ssa.Phi:
 					for i, e := range x.Edges {
 						p := x.Block().Preds[i]
@@ -827,6 +844,7 @@ func recordedNameDecidesDeletion(r *an.Run, rule string) {
 				case *ssa.Extract:
 					if call, ok := x.Tuple.(*ssa.Call); ok {
 						if k := an.StaticCallee(call); k != nil && an.InModule(k) && k.Blocks != nil {
+							bind(call, k, h)
 							for _, ret := range an.Returns(k) {
 								if x.Index < len(ret.Results) {
 									visit(ret.Results[x.Index], k, depth+1)
@@ -836,6 +854,7 @@ func recordedNameDecidesDeletion(r *an.Run, rule string) {
 					}
 				case *ssa.Call:
 					if k := an.StaticCallee(x); k != nil && an.InModule(k) && k.Blocks != nil && k != uses {
+						bind(x, k, h)
 						for _, ret := range an.Returns(k) {
 							if len(ret.Results) == 1 {
 								visit(ret.Results[0], k, depth+1)
